@@ -117,8 +117,30 @@ template <class S, size_t DIM> void boxes(vf::Ctx& c, const char* tname, size_t 
   }
 }
 
+
+// strongly elongated and zero-thickness boxes under every rotation of the catalogue: the enclosing box per axis against sum |R(d,n)| h(n) in long
+// double, with a tolerance relative to THAT sum (a term lost on a thin axis is invisible at the scale of the whole box)
+template <class S, size_t DIM> void elongated(vf::Ctx& c, const char* tname) {
+  using P = Eigen::Matrix<S, DIM, 1>;
+  auto rots = rotations<S, DIM>();
+  const double shapes[5][3] = {{2000, 0.05, 0.05}, {2000, 0, 0}, {0.05, 2000, 0.05}, {0, 0.125, 4000}, {1e-3, 1e3, 1e-3}};
+  for (auto& sh : shapes) for (size_t ir = 0; ir < rots.size(); ++ir) {
+    P ce = P::Constant((S)1.5), h; for (size_t d = 0; d < DIM; ++d) h[d] = (S)sh[d];
+    OrientedBoundingBox<S, DIM> obb(ce, h, rots[ir]);
+    auto enc = obb.toAxisAlignedBoundingBox();
+    c.eval(); c.nontrivial();
+    for (size_t d = 0; d < DIM; ++d) {
+      long double sum = 0; for (size_t n = 0; n < DIM; ++n) sum += fabsl((long double)rots[ir](d, n)) * (long double)h[n];
+      long double got = enc.getHalfWidthExtents()[d], tol = 8 * (long double)std::numeric_limits<S>::epsilon() * sum + (long double)std::numeric_limits<S>::denorm_min();
+      c.obs((double)got);
+      if (!(fabsl(got - sum) <= tol)) { c.violation("OrientedBoundingBox.toAxisAlignedBoundingBox", vf::JO().str("type", tname).i("dim", DIM).raw("half", vj(h)).u("rotation", ir).str("explorer", "elongated boxes").done(), vf::JO().i("axis", d).num("enclosing_half_extent", got).num("sum_abs_R_h", sum).num("tol", tol).done()); return; }
+    }
+  }
+}
+
 template <class S, size_t DIM> void intervals(vf::Ctx& c, const char* tname) {
   using P = Eigen::Matrix<S, DIM, 1>;
+  elongated<S, DIM>(c, tname);
   const S L[] = {-1000, -1.5, 0, 0.25, 1000};
   // all pairs of 1-D intervals per axis; axes rotate through the list
   std::vector<std::pair<S, S>> iv; for (int a = 0; a < 5; ++a) for (int b = a; b < 5; ++b) iv.push_back({L[a], L[b]});
@@ -128,6 +150,11 @@ template <class S, size_t DIM> void intervals(vf::Ctx& c, const char* tname) {
     Interval<S, DIM> a(lo1, hi1), b(lo2, hi2);
     Interval<S, DIM> u = a; u.include(b);
     { Interval<S, DIM> v(lo2, hi2); v = a; v.include(b); if ((i + j) % 2) u = v; }   // every other pair goes through an interval overwritten by assignment
+    {   // the default-constructed interval is the whole space: including anything leaves it unbounded
+      Interval<S, DIM> all; all.include(b); c.eval();
+      bool whole = true; for (size_t d = 0; d < DIM; ++d) if (all.lower()[d] != -std::numeric_limits<S>::max() || all.upper()[d] != std::numeric_limits<S>::max()) whole = false;
+      if (!whole) c.violation("Interval.include", vf::JO().str("type", tname).i("dim", DIM).str("receiver", "default-constructed (whole space)").raw("lo2", vj(lo2)).raw("hi2", vj(hi2)).done(), vf::JO().raw("lower", vj(all.lower())).raw("upper", vj(all.upper())).done());
+    }
     {   // a box built from the hull (an interval that has been grown by include()) reproduces the hull
       AxisAlignedBoundingBox<S, DIM> hb(u); Interval<S, DIM> back = hb.toInterval();
       long double scale = 0; for (size_t d = 0; d < DIM; ++d) scale = std::max<long double>(scale, std::max(fabsl((long double)u.lower()[d]), fabsl((long double)u.upper()[d])));
@@ -272,7 +299,7 @@ std::string vf_describe(const std::string& tier) {
   o.str("rotations", "2D: 16 angles (multiples of pi/8, some offset by 0.1); 3D: 6 axes x {0,0.3,pi/2,2,pi,-1.1}");
   o.str("query_points", "box-frame lattice per axis {0,+-h/2,+-h,+-h(1+-2^-20),+-2h,+-(h+0.5)} mapped to world; points within 8 ulp of a face accept either verdict, except centre 0 without rotation where the face verdict is exact");
   o.str("intervals", "all pairs of intervals with bounds from {-1000,-1.5,0,0.25,1000}, per-axis rotation of the pair list; 1-D specialisation too");
-  o.str("point_sets", "sizes {1,2,3,7,50,1000} x every octant (all-negative included) x offsets {0.5,40,2500} x {lattice, tight cluster, collinear} x 8 point types; recompute on the same object and on a buffer refilled in place; sets of {9,33,130,513,600,1030} points with the unique extreme at every index in turn; copy-constructed and assigned-to preconditioners; oriented boxes in constructed / copied / assigned form, intervals through assignment");
+  o.str("point_sets", "sizes {1,2,3,7,50,1000} x every octant (all-negative included) x offsets {0.5,40,2500} x {lattice, tight cluster, collinear} x 8 point types; recompute on the same object and on a buffer refilled in place; strongly elongated and zero-thickness boxes under every rotation with a per-axis tolerance relative to sum |R| h; the default (whole-space) interval as receiver of include(); sets of {9,33,130,513,600,1030} points with the unique extreme at every index in turn; copy-constructed and assigned-to preconditioners; oriented boxes in constructed / copied / assigned form, intervals through assignment");
   return o.done();
 }
 
